@@ -248,9 +248,9 @@ def main():
             if seqs:
                 first = suite.run_real(seqs[min(len(seqs) - 1, 3)])
                 samples.append({"suite": sname, "requests": [p[0][:160] for p in first[:6]]})
-            rel = [d for d in dis if facets is None or set(d.facets) & set(facets)]
+            rel = [d for d in dis if relevant(d, facets)]
             for d in rel[:3]:
-                d = core.shrink(suite, d, facets)
+                d = core.shrink(suite, d, flat_facets(facets))
                 disagreements.append(d)
                 broken.append({"kind": "correspondence", "what": f"suite {sname}: model and implementation differ on facets {d.facets}", "disagreement": d.to_json()})
             if len(rel) > 3:
@@ -333,6 +333,31 @@ def main():
         print(l)
     print(f"{pid} {tier}: theorems={n_thm} traces={n_traces} lines={n_lines} search={search_stats.get('evaluations', 0)} wall={wall:.1f}s -> {'VIOLATION' if violations else 'ok'}")
     return 1 if violations else 0
+
+
+def relevant(d, rules):
+    """rules: None (everything) | list of facet names | list of (line regex, facets or None)"""
+    if rules is None:
+        return True
+    if rules and isinstance(rules[0], str):
+        return bool(set(d.facets) & set(rules))
+    for rx, facets in rules:
+        if re.search(rx, d.line) and (facets is None or set(d.facets) & set(facets)):
+            return True
+    return False
+
+
+def flat_facets(rules):
+    if rules is None:
+        return None
+    if rules and isinstance(rules[0], str):
+        return rules
+    out = set()
+    for _, facets in rules:
+        if facets is None:
+            return None
+        out |= set(facets)
+    return sorted(out)
 
 
 def guess_broken_theorems(pid, log):
